@@ -1,6 +1,7 @@
 import ConfModel.Driver.Common
 import ConfModel.Model.Delimited
 import ConfModel.Spec.Framing
+import ConfModel.Model.SyncPipe
 namespace ConfModel.Driver.C09
 open Lean ConfModel.Driver ConfModel.Delimited ConfModel.Framing
 
@@ -74,6 +75,8 @@ def siteHandle (inp impl : Json) : Verdict :=
   if bool (field impl "crashed") then
     { agree := false, holds := false, cls := "crashed",
       why := s!"the runner died while reading a peer's stdout ({str (field impl "how")}: {str (field impl "detail")})" } else
+  if nat (field impl "frozenMs") > 0 then
+    { agree := true, holds := true, nontrivial := false, cls := "site:set-aside" } else
   if bool (field impl "hang") then { agree := false, holds := false, why := "the runner did not return within 15 s" } else
   let chunk := nat (field inp "chunk")
   let judge (site : Site) (r : Json) (d : Bytes) : Bool × Bool × String :=
@@ -98,11 +101,90 @@ def siteHandle (inp impl : Json) : Verdict :=
     cls := "site:" ++ (if cliUsed then "client:" ++ str (field cli "err") else "server:" ++ str (field srv "err")),
     why := if !h1 then w1 else if !h2 then w2 else if !(a1 && a2 && reach) then "implementation differs from the model" else "" }
 
+/-! ### op "pipe": the real reader over real pipes with write boundaries -/
+
+/-- frame ends of the messages among the results, from offset `off` -/
+def endsOf : Nat → List Res → List Nat
+  | off, .msg b :: t => (off + 4 + b.length) :: endsOf (off + 4 + b.length) t
+  | _, _ => []
+
+def pipeHandle (inp impl : Json) : Verdict :=
+  let writes := (strList (field inp "writes")).map unhex
+  let expect := natList (field inp "expect")
+  let max := nat (field inp "max")
+  let count := nat (field inp "count")
+  let closed := str (field inp "end") == "close"
+  let eb := str (field inp "kind") == "io"
+  let d := writes.flatten
+  -- the generator's claim "so many messages are complete after write i" against the declarative cut
+  let expectOK := (List.range writes.length).all fun i =>
+    (frames max count (writes.take (i + 1)).flatten).1.length == expect.getD i 0
+  if !expectOK || expect.length != writes.length then bad "pipe: the generator's expect list is not the model's" else
+  if bool (field impl "overtaken") || nat (field impl "frozenMs") > 0 then
+    { agree := true, holds := true, nontrivial := false, cls := "pipe:set-aside" } else
+  let out := SyncPipe.readAll true max count (SyncPipe.Pipe.fresh writes (if closed then .closed else .stall) eb)
+  let mRes := out.results.map (showRes max)
+  let iRes := (arr (field impl "results")).map showImpl
+  let iAfter := natList (field impl "after")
+  let hang := bool (field impl "hang")
+  let late := natList (field impl "late")
+  let timely := bool (field impl "timely")
+  let specRes := expected max count d (if closed then .eofSeparate else .stall)
+  let spec := specRes.map (showRes max)
+  let nMsgs := (specRes.filter Res.isMsg).length
+  let need := (endsOf 0 specRes).map (SyncPipe.needed writes)
+  -- every message was returned before the writer had to go on: after[i] ≤ needed writes (end of frame i)
+  let prompt := (List.range nMsgs).all fun i => iAfter.getD i (writes.length + 1) ≤ need.getD i 0
+  let holds := !hang && iRes == spec && prompt && late.isEmpty && timely
+  let agree := !hang && iRes == mRes && iAfter.take nMsgs == out.mets.take nMsgs && late.isEmpty
+  { agree := agree, holds := holds, nontrivial := !d.isEmpty,
+    cls := "pipe:" ++ str (field inp "kind") ++ ":" ++ ((lastD spec "none").splitOn ":").head!,
+    model := Json.mkObj [("results", toJson mRes), ("mets", toJson out.mets)],
+    why := if holds then (if agree then "" else "implementation differs from the model") else
+      (if hang then s!"pipe: the reader had not returned 6 s after the end of the time-out period ({nat (field inp "timeoutMs")} ms) — it never does; returned before: {iRes}; must report {spec}"
+       else if iRes != spec then s!"pipe: expected {spec}, got {iRes}"
+       else if !prompt || !late.isEmpty then s!"pipe: a complete message was not returned until the peer wrote again (or closed): returned after write {iAfter.take nMsgs}, complete after write {need}; writer's patience ran out after write(s) {late}"
+       else s!"pipe: the time-out did not come within [period, period + 5 s]") }
+
+/-! ### op "clientstall": reader idle, then a request, then the client stalls -/
+
+def stallHandle (inp impl : Json) : Verdict :=
+  let d := unhex (str (field inp "partial"))
+  let site := Site.client
+  let period := site.timeoutMs
+  -- what a reader at that site must report when the stream falls silent after `d`
+  let mRes := (readAllWith (readAt site) 1 ⟨d, [], .stall⟩).results.map (showRes site.limit)
+  let spec := (expected site.limit 1 d .stall).map (showRes site.limit)
+  let err := str (field impl "err")
+  let iRes : List String :=
+    if err == "timeout" then
+      [if str (field impl "what") == "nothing" then "timeout:nothing"
+       else s!"timeout:{str (field impl "what")}:{nat (field impl "read")}/{nat (field impl "of")}"]
+    else [err]
+  let el := nat (field impl "elapsedMs")
+  -- within the period, counted from the beginning of the read (generous margin: 10 s; 1 s of slack
+  -- before, for the op sees the read begin a moment after the reader started its clock)
+  let timely := period ≤ el + 1000 && el ≤ period + 10000
+  if nat (field impl "frozenMs") > 0 then
+    { agree := true, holds := true, nontrivial := false, cls := "clientstall:set-aside" } else
+  if !(bool (field impl "leadOK")) || !(bool (field impl "idleFirst")) then
+    { agree := false, holds := true, nontrivial := false, why := "driver: clientstall: the schedule (reader idle first, lead answered) could not be set up" } else
+  let holds := err == "timeout" && iRes == spec && timely
+  { agree := holds && iRes == mRes && nat (field impl "periodMs") == period, holds := holds, nontrivial := true,
+    cls := "clientstall:" ++ (if d.isEmpty then "nothing" else if d.length < 4 then "prefix" else "message"),
+    model := Json.mkObj [("results", toJson mRes), ("periodMs", toJson period)],
+    why := if holds then "" else
+      if err == "none" then s!"clientstall: the reader was waiting idle, then a request was sent and the client stalled after {d.length} byte(s): no time-out error {el} ms after the beginning of the read (period of the site: {period} ms) — the case has no outcome, the client is not aborted"
+      else if err != "timeout" || iRes != spec then s!"clientstall: expected {spec}, got {iRes}"
+      else s!"clientstall: the time-out error came {el} ms after the beginning of the read; the period of the site is {period} ms" }
+
 def handle : Handler := fun op inp impl =>
   if !(isNull (field impl "panic")) then
     { agree := false, holds := false, why := "panic: " ++ str (field impl "panic") } else
   match op with
   | "site" => siteHandle inp impl
+  | "pipe" => pipeHandle inp impl
+  | "clientstall" => stallHandle inp impl
   | "read" =>
     let data := unhex (str (field inp "bytes"))
     let caps := natList (field inp "caps")
@@ -137,9 +219,20 @@ def handle : Handler := fun op inp impl =>
     let bodies := (strList (field impl "bodies")).map unhex
     let want := hex (bodies.flatMap encode)
     let got := str (field impl "stream")
-    { agree := got == want, holds := got == want, nontrivial := !bodies.isEmpty,
-      model := Json.mkObj [("stream", want)],
-      why := if got == want then "" else "encoder: stream is not the concatenation of prefix+body" }
+    -- round trip: what the real reader of the same variant makes of the written stream
+    let readBack := bool (field inp "readBack")
+    let iBack := (arr (field impl "back")).map showImpl
+    let wantBack := bodies.map (fun b => "msg:" ++ hex b) ++ ["eof"]
+    let backOK := !readBack || iBack == wantBack
+    let holds := got == want && backOK
+    { agree := holds, holds := holds, nontrivial := !bodies.isEmpty,
+      cls := "enc:" ++ str (field inp "via") ++ (if readBack then ":roundtrip" else ""),
+      model := if got == want then Json.null else Json.mkObj [("stream", want)],
+      why := if got != want then
+          s!"encoder ({str (field inp "via")}): the bytes on the wire are not prefix+message for message sizes {bodies.map List.length}: {got.length / 2} bytes written, {want.length / 2} expected"
+        else if !backOK then
+          s!"round trip ({str (field inp "via")}): messages of sizes {bodies.map List.length} were read back as {iBack.map (fun x => x.take 40)}"
+        else "" }
   | "peer" =>
     -- the reference client must have read every request written to its stdin, however the byte
     -- stream was split across reads, in the binary and in the JSON wire variant
